@@ -67,7 +67,13 @@ class LockedHierarchicalMachine(LockedMachine, HierarchicalMachine):
     def _locked_method(self, func, *args, **kwargs):
         # Models trigger events through the (public) method `trigger_event`. Hold the contexts registered for
         # that model (machine contexts and model contexts) just like LockedEvent does for flat machines.
-        if getattr(func, '__name__', None) == 'trigger_event' and args and self._ident.current != get_ident():
+        # A pickled model holds `partial(_locked_method, partial(_locked_method, trigger_event), model, ...)`:
+        # unpickling fetches `trigger_event` through __getattribute__ again. Look through such wrappers.
+        target = func
+        while isinstance(target, partial) and target.args and \
+                getattr(target.func, '__name__', None) == '_locked_method':
+            target = target.args[0]
+        if getattr(target, '__name__', None) == 'trigger_event' and args and self._ident.current != get_ident():
             contexts = self.model_context_map.get(id(args[0])) or self.machine_context
             with nested(*contexts):
                 return func(*args, **kwargs)
